@@ -130,6 +130,31 @@ Proof.
     destruct (zbody c) as [z [xs ys]]. reflexivity.
 Qed.
 
+(* the precondition asserted in make_streett_transducer's innermost loop
+   (`len(xk) == len(holds)`, dropped by the translator) holds for everything
+   the solver records: one trap per persistence predicate in every layer *)
+Lemma onion_lengths goal Yp yj xjk :
+  onion nc nx ny E S moore plus_one holds goal Yp yj xjk ->
+  forall xk, In xk xjk -> length xk = length holds.
+Proof.
+  intros Ho. induction Ho as [|Yp0 y yr xk0 xr Hl _ _ _ IH]; intros xk Hin; [destruct Hin|].
+  destruct Hin as [<-|Hin]; [exact Hl|apply IH, Hin].
+Qed.
+
+Theorem solve_trap_lists_complete :
+  forall xjk xk, In xjk (snd (solve fuel)) -> In xk xjk -> length xk = length holds.
+Proof.
+  intros xjk xk Hj Hk.
+  destruct solve_is_zbody as [c [Pc [Hs _]]]. rewrite Hs in Hj. cbn [snd] in Hj.
+  unfold zbody in Hj. cbn [fst snd] in Hj.
+  apply in_map_iff in Hj. destruct Hj as [R [<- HR]].
+  pose proof (aua_onion nc nx ny E S holds moore plus_one fuel Hfuel Sh
+                (band R (step fuel E S c)) (goal_spred R c HR)) as Hinv.
+  destruct (aua fuel (band R (step fuel E S c))) as [[y yj] xjk0].
+  cbn [aua_inv snd] in *. destruct Hinv as [_ [Ho _]].
+  apply (onion_lengths _ _ _ _ Ho xk Hk).
+Qed.
+
 (* ------------------------------------------------------------------------ *)
 Section Final.
 Variable G : nat.
